@@ -195,7 +195,15 @@ func (bg *BondgoCheck) Create_Bondmachine(rsize int, filter string) (*bondmachin
 	for _, _ = range creqs {
 		bmach.Add_shared_objects([]string{"channel:"})
 	}
-	for chanid, creq := range creqs {
+	// Connect the channels in id order: the position of a channel in a processor's list of
+	// shared objects is its local channel number
+	chanids := make([]int, 0, len(creqs))
+	for chanid := range creqs {
+		chanids = append(chanids, chanid)
+	}
+	sort.Ints(chanids)
+	for _, chanid := range chanids {
+		creq := creqs[chanid]
 		for _, proc_id := range creq.Connected {
 			endpoints := make([]string, 2)
 			endpoints[0] = strconv.Itoa(proc_id)
